@@ -22,8 +22,10 @@ def expr_equals(self, other):
     while left:
         pair = left.pop()
         s, o = pair
-        if s._ufl_is_terminal_:
-            # Compare terminals
+        if s._ufl_is_terminal_ or type(s).__eq__ is not expr_equals:
+            # Compare terminals, and operators that define their own
+            # comparison because they carry data besides their operands
+            # (e.g. derivatives and argument slots of a BaseFormOperator)
             if not s == o:
                 return False
         else:
